@@ -71,6 +71,7 @@ type SimDisk struct {
 	FailLoadKind  string
 	FailStoreAt   int
 	FailStoreKind string
+	GarbleLoadAt  int // the i-th Load of the window returns the first half of the bytes and no error
 	Fired         map[string]int
 
 	// scheduled mode
@@ -136,6 +137,7 @@ func (d *SimDisk) Window() (loaded, stored []string, loadCalls, storeCalls int) 
 func (d *SimDisk) ClearFaults() {
 	d.mu.Lock()
 	d.FailLoadAt, d.FailStoreAt = 0, 0
+	d.GarbleLoadAt = 0
 	d.FailLoadKind, d.FailStoreKind = "", ""
 	d.mu.Unlock()
 }
@@ -247,6 +249,12 @@ func (d *SimDisk) Load(ctx context.Context, name string) ([]byte, error) {
 	if !ok {
 		d.event("load", name, 0, "notfound")
 		return nil, fmt.Errorf("%w: %s", ErrInjNotFound, name)
+	}
+	if d.GarbleLoadAt != 0 && d.loadCalls == d.GarbleLoadAt && len(b) > 1 {
+		// an eventually consistent store serves a truncated object once, without an error
+		d.Fired["load-truncated-bytes"]++
+		d.event("load", name, len(b)/2, "truncated")
+		return append([]byte(nil), b[:len(b)/2]...), nil
 	}
 	d.event("load", name, len(b), "ok")
 	return append([]byte(nil), b...), nil
